@@ -12,6 +12,9 @@ use serde_json::json;
 
 const CW: u32 = 5;
 const CH: u32 = 4;
+/// canvas of the patch family (a frame may carry at most width*height/16 patch references)
+const PW: u32 = 8;
+const PH: u32 = 6;
 
 #[derive(Clone, Debug)]
 pub struct FrameCfg {
@@ -152,7 +155,7 @@ pub fn build(c: &Cfg) -> Option<Built> {
         let mut spec = ModularFrameSpec::new(fh.clone(), chans);
         spec.tree = Node::leaf(if i % 2 == 0 { 5 } else { 2 });
         frames_bytes.push(write_modular_frame(&img, &spec).bytes);
-        model_frames.push(FrameIn { header: fh, planes });
+        model_frames.push(FrameIn { header: fh, planes, patches: vec![] });
     }
     let expected: Vec<Vec<Vec<f64>>> = composite(&img, &model_frames).into_iter().map(|c| c.planes).collect();
     let bytes = write_codestream(&img, &Sel::default(), &frames_bytes);
@@ -168,16 +171,21 @@ fn plane_f64(p: &Plane, bits: u32) -> Vec<f64> {
 
 pub fn run(c: &Cfg) -> Option<Result<usize, (String, String)>> {
     let b = build(c)?;
-    let bits: Vec<u32> = [c.colour_bits; 3].into_iter().chain([c.alpha_bits]).chain(if c.second_ec { Some(8) } else { None }).collect();
+    let mode = c.frames.last().map(|f| f.mode).unwrap_or(0);
+    Some(compare(&b, c.request_order, &format!("blend-mismatch:mode{mode}"), (CW as usize, CH as usize)))
+}
+
+/// Decodes `b.bytes`, renders the keyframes in the given order and compares with `b.expected`.
+pub fn compare(b: &Built, request_order: u32, key: &str, canvas: (usize, usize)) -> Result<usize, (String, String)> {
     let img = match open(&b.bytes, &DecOpts::default()) {
         Ok(i) => i,
-        Err(e) => return Some(Err((format!("decode-error:{}", e.chars().rev().take(30).collect::<String>().chars().rev().collect::<String>()), format!("valid multi-frame stream not decoded: {e}")))),
+        Err(e) => return Err((format!("decode-error:{}", e.chars().rev().take(30).collect::<String>().chars().rev().collect::<String>()), format!("valid multi-frame stream not decoded: {e}"))),
     };
     let nk = img.num_loaded_keyframes();
     if nk != b.expected.len() {
-        return Some(Err(("keyframe-count".into(), format!("decoder reports {nk} keyframes, reference {}", b.expected.len()))));
+        return Err(("keyframe-count".into(), format!("decoder reports {nk} keyframes, reference {}", b.expected.len())));
     }
-    let order: Vec<usize> = match c.request_order {
+    let order: Vec<usize> = match request_order {
         0 => (0..nk).collect(),
         1 => (0..nk).rev().collect(),
         _ => (0..nk).chain(0..nk).collect(),
@@ -185,11 +193,11 @@ pub fn run(c: &Cfg) -> Option<Result<usize, (String, String)>> {
     for k in order {
         let fb = match crate::util::guard(|| img.render_frame(k).map(|r| r.image_all_channels())) {
             Ok(Ok(fb)) => fb,
-            Ok(Err(e)) => return Some(Err(("render-error".into(), format!("keyframe {k}: {e}")))),
-            Err(p) => return Some(Err((format!("panic@{}", crate::util::panic_site(&p)), format!("keyframe {k}: panic {p}")))),
+            Ok(Err(e)) => return Err(("render-error".into(), format!("keyframe {k}: {e}"))),
+            Err(p) => return Err((format!("panic@{}", crate::util::panic_site(&p)), format!("keyframe {k}: panic {p}"))),
         };
-        if fb.channels() != b.n_ch || (fb.width(), fb.height()) != (CW as usize, CH as usize) {
-            return Some(Err(("dims".into(), format!("keyframe {k}: buffer {}x{}x{}", fb.width(), fb.height(), fb.channels()))));
+        if fb.channels() != b.n_ch || (fb.width(), fb.height()) != canvas {
+            return Err(("dims".into(), format!("keyframe {k}: buffer {}x{}x{}", fb.width(), fb.height(), fb.channels())));
         }
         let (w, nch) = (fb.width(), fb.channels());
         for i in 0..fb.width() * fb.height() {
@@ -197,17 +205,207 @@ pub fn run(c: &Cfg) -> Option<Result<usize, (String, String)>> {
                 let got = fb.buf()[i * nch + ch] as f64;
                 let want = b.expected[k][ch][i];
                 if !((got - want).abs() <= 1e-5) {
-                    let mode = c.frames.last().map(|f| f.mode).unwrap_or(0);
-                    return Some(Err((
-                        format!("blend-mismatch:mode{mode}:{}", if ch < 3 { "colour" } else if ch == 3 { "alpha" } else { "ec" }),
+                    return Err((
+                        format!("{key}:{}", if ch < 3 { "colour" } else if ch == 3 { "alpha" } else { "ec" }),
                         format!("keyframe {k} channel {ch} at ({},{}): decoded {} reference {}", i % w, i / w, got, want),
-                    )));
+                    ));
                 }
             }
         }
     }
-    let _ = &bits;
-    Some(Ok(nk))
+    Ok(nk)
+}
+
+// ---------------------------------------------------------------- patches
+
+#[derive(Clone, Debug)]
+pub struct PatchCfg {
+    pub premult: bool,
+    pub two_alpha: bool,
+    pub alpha_bits: u32,
+    pub ref_kind: u32,
+    pub ref_slot: u32,
+    pub src: u32,
+    pub target: u32,
+    pub second_target: u32,
+    pub colour_mode: u32,
+    pub alpha_mode: u32,
+    pub ec2_mode: u32,
+    pub clamp: bool,
+    pub alpha_channel: u32,
+    pub second_ref: bool,
+    pub crop: u32,
+    pub frame_blend: u32,
+    pub ans: bool,
+    pub pattern: u32,
+    pub request_order: u32,
+}
+
+pub fn patch_cfg_from(t: &mut Tape) -> PatchCfg {
+    PatchCfg {
+        premult: t.flag(),
+        two_alpha: t.flag(),
+        alpha_bits: [8, 16][t.choose(2) as usize],
+        ref_kind: t.choose(3),
+        ref_slot: [1, 0, 2, 3][t.choose(4) as usize],
+        src: t.choose(5),
+        target: t.choose(3),
+        second_target: t.choose(3),
+        colour_mode: [1, 0, 2, 3, 4, 5, 6, 7][t.choose(8) as usize],
+        alpha_mode: t.choose(4),
+        ec2_mode: t.choose(3),
+        clamp: t.flag(),
+        alpha_channel: t.choose(2),
+        second_ref: t.flag(),
+        crop: t.choose(4),
+        frame_blend: t.choose(3),
+        ans: t.flag(),
+        pattern: t.choose(3),
+        request_order: t.choose(2) * 2,
+    }
+}
+
+pub fn build_patch(c: &PatchCfg) -> Option<Built> {
+    use jxlw::patches::*;
+    let mut img = ImageHeader::simple(PW, PH, false, 8);
+    img.extra_fields = true;
+    img.animation = Some(crate::corpus::animation_header());
+    let mut a = ExtraChannelInfo::new(EC_ALPHA, BitDepth::int(c.alpha_bits));
+    a.alpha_associated = c.premult;
+    let mut e2 = if c.two_alpha { ExtraChannelInfo::new(EC_ALPHA, BitDepth::int(8)) } else { ExtraChannelInfo::new(EC_DEPTH, BitDepth::int(8)) };
+    if c.two_alpha {
+        e2.alpha_associated = !c.premult;
+    }
+    img.ec_info = vec![a, e2];
+    img.modular_16bit_buffers = false;
+    let n_ch = 5usize;
+    let bits: [u32; 5] = [8, 8, 8, c.alpha_bits, 8];
+    let num_alpha = if c.two_alpha { 2 } else { 1 };
+    if !c.two_alpha && c.alpha_channel != 0 {
+        return None;
+    }
+    let other_slot = (c.ref_slot + 1) % 4;
+    let samples = |fw: usize, fh: usize, i: usize| -> Vec<Channel> {
+        (0..n_ch)
+            .map(|ch| {
+                let maxv = (1i64 << bits[ch]) - 1;
+                Channel::from_fn(fw, fh, |x, y| {
+                    let k = (x * 3 + y * 5 + ch * 7 + i * 11 + c.pattern as usize * 13) % 4;
+                    let lvl: i64 = if ch >= 3 { [255, 128, 0, 64][(k + ch) % 4] } else { [64, 255, 0, 128][k] };
+                    ((lvl * maxv + 127) / 255) as i32
+                })
+            })
+            .collect()
+    };
+    let to_planes = |chans: &[Channel]| -> Vec<Vec<f64>> { chans.iter().enumerate().map(|(ch, p)| p.data.iter().map(|&v| v as f64 / ((1i64 << bits[ch]) - 1) as f64).collect()).collect() };
+    let replace = |source: u32| BlendingInfo { mode: BLEND_REPLACE, alpha_channel: 0, clamp: false, source };
+    let mut frames_bytes = vec![];
+    let mut model_frames = vec![];
+    // frame 0: the reference
+    let (rw, rh) = if c.ref_kind == 0 { (5usize, 4usize) } else { (PW as usize, PH as usize) };
+    {
+        let mut fh = FrameHeader::modular_lossless(&img);
+        fh.frame_type = if c.ref_kind == 2 { FT_REGULAR } else { FT_REFERENCE_ONLY };
+        fh.is_last = false;
+        fh.duration = 0;
+        fh.save_as_reference = c.ref_slot;
+        if c.ref_kind == 0 {
+            fh.have_crop = true;
+            fh.width = rw as u32;
+            fh.height = rh as u32;
+        }
+        fh.blending_info = replace(other_slot);
+        fh.ec_blending_info = vec![replace(other_slot), replace(other_slot)];
+        if fh.save_before_ct_signalled(&img) {
+            fh.save_before_ct = fh.frame_type == FT_REFERENCE_ONLY;
+        }
+        let chans = samples(rw, rh, 0);
+        let planes = to_planes(&chans);
+        let spec = ModularFrameSpec::new(fh.clone(), chans);
+        frames_bytes.push(write_modular_frame(&img, &spec).bytes);
+        model_frames.push(FrameIn { header: fh, planes, patches: vec![] });
+    }
+    // frame 1: carries the patches
+    let mut fh = FrameHeader::modular_lossless(&img);
+    fh.frame_type = FT_REGULAR;
+    fh.is_last = true;
+    fh.duration = 1;
+    fh.flags |= FLAG_PATCHES;
+    let crop = [None, Some((1, 1, 7, 5)), Some((-1, 0, 8, 6)), Some((2, 2, 7, 5))][c.crop as usize];
+    if let Some((x0, y0, w, h)) = crop {
+        fh.have_crop = true;
+        fh.x0 = x0;
+        fh.y0 = y0;
+        fh.width = w;
+        fh.height = h;
+    }
+    // blending of the patched frame onto the canvas; the canvas source is the reference slot only when
+    // that slot holds a full canvas (a cropped ReferenceOnly source is outside C05's alphabet)
+    let src_slot = if c.ref_kind == 2 { c.ref_slot } else { other_slot };
+    let fmode = [BLEND_REPLACE, BLEND_BLEND, BLEND_ADD][c.frame_blend as usize];
+    let bi = BlendingInfo { mode: fmode, alpha_channel: 0, clamp: false, source: src_slot };
+    fh.blending_info = bi.clone();
+    fh.ec_blending_info = vec![bi.clone(), bi.clone()];
+    if fh.is_full_frame(&img) && fmode != BLEND_REPLACE {
+        // fine: all channels share the mode (no mixed-Replace zone)
+    }
+    let (fw, fhh) = fh.frame_size(&img);
+    let (fw, fhh) = (fw as usize, fhh as usize);
+    let (sx, sy, pw, ph) = [(0u32, 0u32, 2u32, 2u32), (1, 1, 3, 2), (0, 0, 5, 4), (4, 3, 1, 1), (2, 0, 2, 4)][c.src as usize];
+    if (pw as usize) > fw || (ph as usize) > fhh {
+        return None;
+    }
+    let (tx, ty) = match c.target {
+        0 => (0i32, 0i32),
+        1 => (1.min(fw as i32 - pw as i32), 1.min(fhh as i32 - ph as i32)),
+        _ => (fw as i32 - pw as i32, fhh as i32 - ph as i32),
+    };
+    let mut positions = vec![(tx, ty)];
+    match c.second_target {
+        1 => positions.push((tx - 1, ty + 1)),
+        2 => positions.push((tx + 1, ty)),
+        _ => {}
+    }
+    for &(x, y) in &positions {
+        if x < 0 || y < 0 || x as usize + pw as usize > fw || y as usize + ph as usize > fhh {
+            return None;
+        }
+    }
+    let pb = |mode: u32| PatchBlend { mode, alpha_channel: c.alpha_channel, clamp: c.clamp && mode >= 3 };
+    let alpha_mode = match c.alpha_mode {
+        0 => c.colour_mode,
+        1 => PATCH_NONE,
+        2 => PATCH_REPLACE,
+        _ => PATCH_ADD,
+    };
+    let ec2_mode = match c.ec2_mode {
+        0 => c.colour_mode,
+        1 => PATCH_NONE,
+        _ => PATCH_MUL,
+    };
+    let blending = vec![pb(c.colour_mode), pb(alpha_mode), pb(ec2_mode)];
+    let mut refs = vec![PatchRef { ref_idx: c.ref_slot, x0: sx, y0: sy, w: pw, h: ph, targets: positions.iter().map(|&(x, y)| PatchTarget { x, y, blending: blending.clone() }).collect() }];
+    if c.second_ref {
+        let (x, y) = ((fw as i32 - 1).min(2), (fhh as i32 - 1).min(2));
+        refs.push(PatchRef { ref_idx: c.ref_slot, x0: 0, y0: 0, w: 1, h: 1, targets: vec![PatchTarget { x, y, blending: vec![pb(PATCH_ADD), pb(PATCH_NONE), pb(PATCH_REPLACE)] }] });
+    }
+    let chans = samples(fw, fhh, 1);
+    let planes = to_planes(&chans);
+    let mut spec = ModularFrameSpec::new(fh.clone(), chans);
+    spec.tree = Node::leaf(2);
+    let opts = jxlw::entropy::CodeOpts { use_prefix: !c.ans, ..Default::default() };
+    spec.lf_global_prefix = Some(write_patches(&refs, num_alpha, &opts));
+    frames_bytes.push(write_modular_frame(&img, &spec).bytes);
+    model_frames.push(FrameIn { header: fh, planes, patches: refs });
+    let _ = (rw, rh);
+    let expected: Vec<Vec<Vec<f64>>> = composite(&img, &model_frames).into_iter().map(|c| c.planes).collect();
+    let bytes = write_codestream(&img, &Sel::default(), &frames_bytes);
+    Some(Built { bytes, expected, n_ch })
+}
+
+pub fn run_patch(c: &PatchCfg) -> Option<Result<usize, (String, String)>> {
+    let b = build_patch(c)?;
+    Some(compare(&b, c.request_order, &format!("patch-mismatch:mode{}", c.colour_mode), (PW as usize, PH as usize)))
 }
 
 pub fn main(args: &crate::Args) {
@@ -288,7 +486,80 @@ pub fn main(args: &crate::Args) {
             }
         }
     }
-    rep.rule = format!("canvas 5x4, lossless non-XYB Modular frames, RGB + alpha (+ a second extra channel); configuration = image dims (premultiplied/straight alpha, alpha depth 8/16 vs colour depth 8/12, second extra channel) + up to {max_frames} frames each with (type Regular/ReferenceOnly/SkipProgressive, duration 0/1, save slot 0-3, 5 blend modes, source slot 0-3, clamp, 9 crop kinds incl. every edge / wholly outside / larger than canvas, 3 extra-channel blend variants, 3 sample patterns) + keyframe request order (forward, reverse, twice): ALL configurations within {bound} deviations of the default, plus the FULL PRODUCT for two frames over (mode0, save0, duration0, crop0) x (mode1, source1, crop1) x premultiplied; oracle: jxlw::model::composite (per-channel blend rules applied in bitstream order on reference slots) within 1e-5. Non-trivial = decodes and matches with >= 1 keyframe; distinct by tape.");
+    // ---- patch family: a reference frame + a frame carrying a patch dictionary
+    let (mut ptapes, _) = collect_tapes(bound, 0, |t| {
+        let _ = patch_cfg_from(t);
+    });
+    let n_pdev = ptapes.len();
+    {
+        let base_len = {
+            let mut t = Tape::default();
+            let _ = patch_cfg_from(&mut t);
+            t.answers.len()
+        };
+        // tape layout: 0 premult, 1 two_alpha, 2 alpha_bits, 3 ref_kind, 4 ref_slot, 5 src, 6 target, 7 second_target,
+        // 8 colour_mode, 9 alpha_mode, 10 ec2_mode, 11 clamp, 12 alpha_channel, 13 second_ref, 14 crop, 15 frame_blend, ...
+        for premult in 0..2u32 {
+            for ref_kind in 0..3u32 {
+                for cm in 0..8u32 {
+                    for am in 0..4u32 {
+                        for em in 0..3u32 {
+                            for clamp in 0..2u32 {
+                                for two_alpha in 0..2u32 {
+                                    for ac in 0..(1 + two_alpha) {
+                                        for fb in 0..3u32 {
+                                            let mut t = vec![0u32; base_len];
+                                            t[0] = premult;
+                                            t[1] = two_alpha;
+                                            t[3] = ref_kind;
+                                            t[8] = cm;
+                                            t[9] = am;
+                                            t[10] = em;
+                                            t[11] = clamp;
+                                            t[12] = ac;
+                                            t[15] = fb;
+                                            ptapes.push(t);
+                                        }
+                                    }
+                                }
+                            }
+                        }
+                    }
+                }
+            }
+        }
+    }
+    let presults = par_map(&ptapes, n_threads(), |_, tp| {
+        let mut t = Tape::from_answers(tp);
+        let c = patch_cfg_from(&mut t);
+        run_patch(&c)
+    });
+    let mut pskipped = 0;
+    for (tp, r) in ptapes.iter().zip(&presults) {
+        rep.eval();
+        match r {
+            None => {
+                pskipped += 1;
+                rep.outcome("patch-not-applicable");
+            }
+            Some(Ok(nk)) => {
+                kf_total += nk;
+                rep.outcome("patch-ok");
+                let b: Vec<u8> = std::iter::once(0xffu32).chain(tp.iter().copied()).flat_map(|x| x.to_le_bytes()).collect();
+                rep.nontrivial(fnv(&b));
+            }
+            Some(Err((k, w))) => {
+                rep.outcome("patch-mismatch");
+                let mut t = Tape::from_answers(tp);
+                let c = patch_cfg_from(&mut t);
+                rep.violation(k, &format!("{w} [{:?}]", c), &json!({"family": "patch", "tape": tp, "stream_hex": build_patch(&c).map(|b| hex(&b.bytes)).unwrap_or_default()}));
+            }
+        }
+    }
+    rep.extra.insert("patch_deviation_cases".into(), json!(n_pdev));
+    rep.extra.insert("patch_full_product_cases".into(), json!(ptapes.len() - n_pdev));
+    rep.extra.insert("patch_not_applicable".into(), json!(pskipped));
+    rep.rule = format!("canvas 5x4, lossless non-XYB Modular frames, RGB + alpha (+ a second extra channel); configuration = image dims (premultiplied/straight alpha, alpha depth 8/16 vs colour depth 8/12, second extra channel) + up to {max_frames} frames each with (type Regular/ReferenceOnly/SkipProgressive, duration 0/1, save slot 0-3, 5 blend modes, source slot 0-3, clamp, 9 crop kinds incl. every edge / wholly outside / larger than canvas, 3 extra-channel blend variants, 3 sample patterns) + keyframe request order (forward, reverse, twice): ALL configurations within {bound} deviations of the default, plus the FULL PRODUCT for two frames over (mode0, save0, duration0, crop0) x (mode1, source1, crop1) x premultiplied; oracle: jxlw::model::composite (per-channel blend rules applied in bitstream order on reference slots) within 1e-5. PATCHES: on an 8x6 canvas a reference frame (ReferenceOnly 5x4, ReferenceOnly canvas-sized, or zero-duration Regular; slot 0-3) followed by a frame whose patch dictionary (written by jxlw::patches, prefix or ANS coded) copies 1-2 source rectangles (5 kinds incl. edge-touching and whole reference) to 1-2 targets (origin, inner, far corner; second target by negative/positive delta) with colour mode 0-7, alpha-channel mode (same/None/Replace/Add), second-extra-channel mode (same/None/Mul), clamp, one or two alpha channels (premultiplied / straight, 8/16 bit) and the alpha channel chosen, on a full or cropped frame (3 crops incl. partly outside the canvas) that is then blended (Replace/Blend/Add): ALL configurations within {bound} deviations plus the FULL PRODUCT premultiplied x reference kind x 8 colour modes x 4 alpha modes x 3 EC modes x clamp x alpha channels x frame blend; oracle jxlw::patches::apply_patches then composite. Non-trivial = decodes and matches with >= 1 keyframe; distinct by tape.");
     for i in [n_dev / 2, tapes.len() - 1] {
         let mut t = Tape::from_answers(&tapes[i]);
         let c = cfg_from(&mut t, max_frames);
@@ -301,7 +572,7 @@ pub fn main(args: &crate::Args) {
     rep.exhaustive = true;
     rep.assumptions = vec![
         "jxlw::model::composite is the reference compositor (written from the blend rules of the format)".into(),
-        "excluded: patches (no patch-dictionary writer yet), save_before_ct on normal frames, cropped ReferenceOnly frames, and the EC blend-source zone of DESIGN.md section 8".into(),
+        "excluded: patches lying partly outside the frame or the reference (the format forbids them), save_before_ct on normal frames, cropped ReferenceOnly frames, and the EC blend-source zone of DESIGN.md section 8".into(),
     ];
     rep.finish();
 }
@@ -310,6 +581,21 @@ fn replay(path: &str) -> ! {
     let s = std::fs::read_to_string(path).unwrap_or_else(|e| crate::explore::machinery_failure(&format!("{path}: {e}")));
     let v: serde_json::Value = serde_json::from_str(&s).unwrap();
     let tape: Vec<u32> = v["tape"].as_array().unwrap().iter().map(|x| x.as_u64().unwrap() as u32).collect();
+    if v["family"].as_str() == Some("patch") {
+        let mut t = Tape::from_answers(&tape);
+        let c = patch_cfg_from(&mut t);
+        println!("{:?}", c);
+        match run_patch(&c) {
+            None | Some(Ok(_)) => {
+                println!("replay: property holds on this case");
+                std::process::exit(0)
+            }
+            Some(Err((k, w))) => {
+                println!("VIOLATION property=C05 replay={path}\n  key={k} :: {w}");
+                std::process::exit(1)
+            }
+        }
+    }
     let mf = v["max_frames"].as_u64().unwrap_or(3) as u32;
     let mut t = Tape::from_answers(&tape);
     let c = cfg_from(&mut t, mf);
